@@ -159,6 +159,7 @@ def run(repo, rep, tier):
     L.borrow(repo, rep, "R07.1", "C01", _c01.statement_patterns,
              ("statement-space", "statement-expression-width",
               "split-parts-steps"), minimum=3)
+    L.option_defaults_rule(repo, rep, "R07.5", ("boolean_attributes",))
     L.state_rule(repo, rep)
 
 
